@@ -327,3 +327,90 @@ Definition ble_session_write (seal : N -> bytes -> bytes) (enc : bool) (ctr : N)
    [known] = per position, whether the lookup succeeds; [values] = the value TLVs. *)
 Definition coap_write_batch (known : list bool) (opcode : N) (iids : list N) (values : list bytes) : res perr bytes :=
   if forallb (fun b => b) known then coap_encode_all opcode iids values else Crash.
+
+(* ------------------------------------------------------------------ BLE: a whole session (closed loop)
+   ble_request called again and again on one connection: the controller's EncryptionKey /
+   DecryptionKey counters (cst) persist between requests, so do the accessory's (ast).
+   Keys: sealW/openW controller -> accessory, sealR/openR accessory -> controller.
+   The accessory is the spec reassembler plus an arbitrary [responder] choosing, for the request it
+   reassembled, control byte, status, body and how to cut the body into fragments. *)
+Definition breq := (nat * N * N * N * bytes)%type.            (* fragment size, opcode, tid, iid, body *)
+Definition bans := (N * N * bytes * list (N * bytes))%type.   (* control, status, first piece, continuation (control, piece) *)
+Definition responder := (N * N * N * bytes) -> bans.
+Definition ans_outcome (a : bans) : N * bytes :=
+  let '(c, st, p0, conts) := a in (st, p0 ++ concat (map snd conts)).
+
+Definition acc_response (c tid st : N) (p0 : bytes) (conts : list (N * bytes)) : list bytes :=
+  resp_first c tid st (N.of_nat (length (p0 ++ concat (map snd conts)))) p0 :: map (resp_cont tid) conts.
+
+Definition acc_handle (sealR : N -> bytes -> bytes) (openW : N -> bytes -> option bytes) (resp : responder)
+           (ast : N * N) (ws : list bytes) : option (list bytes * (N * N)) :=
+  match open_seq openW (fst ast) ws with
+  | None => None
+  | Some frs =>
+      match acc_reassemble frs with
+      | None => None
+      | Some (op, t, i, b) =>
+          let '(c, st, p0, conts) := resp (op, t, i, b) in
+          let fr := seal_seq sealR (snd ast) (acc_response c t st p0 conts) in
+          Some (fr, ((fst ast + N.of_nat (length ws))%N, (snd ast + N.of_nat (length fr))%N))
+      end
+  end.
+
+Fixpoint ble_loop (sealW : N -> bytes -> bytes) (openR : N -> bytes -> option bytes)
+         (sealR : N -> bytes -> bytes) (openW : N -> bytes -> option bytes) (resp : responder)
+         (cst ast : N * N) (reqs : list breq) : res perr (list (N * bytes) * (N * N) * (N * N)) :=
+  match reqs with
+  | [] => Ok ([], cst, ast)
+  | (fs, op, tid, iid, data) :: r =>
+      rbind (ble_write sealW (fst cst) fs op tid iid data) (fun we =>
+        match acc_handle sealR openW resp ast (fst we) with
+        | None => Err Starved                                   (* the accessory does not answer *)
+        | Some (fr, ast') =>
+            rbind (read_pdu openR (snd cst) tid fr) (fun r4 =>
+              let '(st, body, _unread, d') := r4 in
+              rbind (ble_loop sealW openR sealR openW resp (snd we, d') ast' r) (fun oca =>
+                let '(outs, c', a') := oca in Ok ((st, body) :: outs, c', a')))
+        end)
+  end.
+
+(* a concrete, deterministic accessory used by the Examples and by the correspondence driver
+   (the harness has an independent Python implementation of the same specification):
+   status (op + iid + tid) mod 7, body = request body reversed, first piece iid mod 5 bytes,
+   continuation pieces of 1 + tid mod 7 bytes with control 0x80 *)
+Definition demo_responder : responder := fun rq =>
+  let '(op, t, i, b) := rq in
+  let body := rev b in
+  let k := N.to_nat (i mod 5) in
+  (2%N, ((op + i + t) mod 7)%N, firstn k body,
+   map (fun c => (128%N, c)) (chunks (S (N.to_nat (t mod 7))) (skipn k body))).
+
+(* ------------------------------------------------------------------ CoAP: _read_characteristics_exit in full
+   For each result: a status becomes a status entry; a body is passed through decode_pdu_03
+   ([dec], abstract: the Value TLV) unless empty; if the accessory database knows the iid
+   ([known], lookup by iid only, as find_characteristic_by_iid does) and the body is non-empty, the
+   decoded bytes are stored in that characteristic's raw_value (a cache write) and the entry is
+   the characteristic's converted value (RConv), otherwise the entry is the decoded bytes. *)
+Inductive rval := RStatus (s : N) | RRaw (b : bytes) | RConv (iid : N) (b : bytes).
+
+Definition read_entry (dec : bytes -> bytes) (known : N -> bool) (iid : N) (r : cres) : rval * list (N * bytes) :=
+  match r with
+  | CStatus s => (RStatus s, [])
+  | CBody b =>
+      if nil_b b then (RRaw [], [])
+      else if known iid then (RConv iid (dec b), [(iid, dec b)])
+      else (RRaw (dec b), [])
+  end.
+
+Fixpoint coap_read_exit (dec : bytes -> bytes) (known : N -> bool) (ids : list (N * N)) (rs : list cres)
+  : res perr (list ((N * N) * rval) * list (N * bytes)) :=
+  match rs with
+  | [] => Ok ([], [])
+  | r :: rs' =>
+      match ids with
+      | [] => Crash                                            (* ids[idx]: IndexError *)
+      | k :: ids' =>
+          let ew := read_entry dec known (snd k) r in
+          rmap (fun ec => ((k, fst ew) :: fst ec, snd ew ++ snd ec)) (coap_read_exit dec known ids' rs')
+      end
+  end.
